@@ -37,7 +37,7 @@ func c18Gen(seed int64, i int, dir string) (*gen.FSLayout, *gen.Dump) {
 	rr := core.NewRand(seed, 18, uint64(i))
 	// every fourth layout has a module nested in another one: which modules get detected depends on the
 	// order of the files, but a frame must always be explained by the longest detected root that contains it
-	l := gen.GenFS(rr, dir, &gen.FSCfg{Decoys: true, MissingSome: i%3 == 0, Nested: i%4 == 1})
+	l := gen.GenFS(rr, dir, &gen.FSCfg{Decoys: true, MissingSome: i%3 == 0, Nested: i%4 == 1, Hostile: i%5 == 2})
 	return l, l.DumpFor(rr)
 }
 
@@ -140,6 +140,15 @@ func c18Eval(r *core.Run, c *c18Case) {
 		for _, cl := range calls {
 			f := byRemote[cl.RemoteSrcPath]
 			if f == nil {
+				continue
+			}
+			if f.Hostile {
+				// a root plus a remainder outside its source trees: only the general laws below apply
+				r.Count("hostile_frames_seen", 1)
+				if cl.LocalSrcPath != "" && !strings.HasSuffix(cl.LocalSrcPath, cl.RelSrcPath) {
+					report("local-not-ending-with-rel", fmt.Sprintf("%s: LocalSrcPath %q does not end with RelSrcPath %q", cl.RemoteSrcPath, cl.LocalSrcPath, cl.RelSrcPath))
+					return
+				}
 				continue
 			}
 			r.Mark("classes_seen", fmt.Sprintf("class=%d exists=%v decoy=%v", f.Class, f.Exists, f.Decoy))
